@@ -15,7 +15,7 @@ RN.3 (C33) who_may_write(Scope.names): only Scope::add_name / Scope::new; every 
 """
 from .. import cfg
 from ..callgraph import CallGraph
-from ..dataflow import operand_term, raw_operand_place, raw_place, single_def, forward_derived
+from ..dataflow import operand_term, raw_operand_place, raw_place, single_def, forward_derived, uses_of_local
 from ..facts import AnchorMissing
 from .common import PA, where, short, fn_key, recv_fields
 
@@ -233,6 +233,18 @@ def _closure_captures(body, call, local):
     return False
 
 
+def _is_borrow_for(body, use, call):
+    """the use (block, stmt) is the `&mut exclusions` borrow that feeds `call` itself"""
+    bi, si = use
+    if si is None:
+        return bi == call.bb
+    st = body.stmts(bi)[si]
+    if st[0] == "a" and st[2][0] in ("ref", "ptr") and len(st[1]) == 1:
+        rp = raw_operand_place(body, call.args[0]) if call.args else None
+        return bi == call.bb and rp is not None and rp[0] == 1
+    return False
+
+
 def rn0(ctx, facts, rule):
     """RN.0 post-condition of generate_name itself: a name is returned only after a *complete* scan of the exclusions found no
     equal name, and that scan happened after the candidate's last modification.  For generate_name and its helper gen_name:
@@ -286,9 +298,11 @@ def rn0(ctx, facts, rule):
                 # fresh, unadapted iterator over parameter 1
                 it = operand_term(b, c.args[0]) if c.args else ("unknown",)
                 adapted = []
+                chain_names = []
                 hops = 0
                 while it[0] == "call" and hops < 8:
                     cn = (it[1].path or "").split("::")[-1]
+                    chain_names.append(cn)
                     if cn in ADAPTORS:
                         adapted.append(cn)
                     if cn != "clone" and cn not in ADAPTORS and cn not in ("iter", "into_iter", "deref", "by_ref"):
@@ -296,6 +310,16 @@ def rn0(ctx, facts, rule):
                     it = operand_term(b, it[1].args[0]) if it[1].args else ("unknown",)
                     hops += 1
                 whole = it[0] == "path" and it[1] == 1 and not adapted
+                # a fresh copy: the scan consumes its iterator; scanning the parameter itself is only complete if this is the
+                # parameter's single use and the scan is not repeated (no loop)
+                if whole and "clone" not in chain_names:
+                    in_loop = cfg.loop_containing(b, t) is not None or cfg.loop_containing(b, c.bb) is not None
+                    other_uses = [u for u in uses_of_local(b, 1) if u[0] != c.bb]
+                    reused = in_loop or any(u[0] in cfg.reachable_from(b, c.bb) or c.bb in cfg.reachable_from(b, u[0])
+                                            for u in other_uses if not _is_borrow_for(b, u, c))
+                    if reused:
+                        whole = False
+                        adapted = ["consumed: the exclusions iterator itself is advanced by the scan and used again"]
                 # `any`-like: found => true; the return must be on the not-found edge
                 notfound = {0} if not neg else {None}
                 if nm == "all":
